@@ -536,8 +536,11 @@ pub fn suite_exhaustive(dir: &str, _seed: u64, thorough: bool, st: &mut Stats) {
 pub fn c10_oracle(cfg: &Cfg, p1: &[u8], p2: &[u8], s: &[u8]) -> Result<bool, String> {
     let d1 = [p1, s].concat();
     let d2 = [p2, s].concat();
-    let (c1, _) = run_chunker(cfg, &d1, vec![]).map_err(|e| format!("chunker failed: {}", e))?;
-    let (c2, _) = run_chunker(cfg, &d2, vec![]).map_err(|e| format!("chunker failed: {}", e))?;
+    // the two streams are also delivered differently (whole / in pieces of a size derived from the lengths): where a
+    // stream is cut into reads and buffer refills must not matter either
+    let sched_of = |n: usize, k: usize| -> Vec<Ev> { if (n + k) % 3 == 0 { vec![] } else { let step = 1 + (n * 7 + k * 13) % 4099; (0..(n / step + 2)).flat_map(|i| if i % 5 == 4 { vec![Ev::Pending, Ev::Read(step)] } else { vec![Ev::Read(step)] }).collect() } };
+    let (c1, _) = run_chunker(cfg, &d1, sched_of(d1.len(), 1)).map_err(|e| format!("chunker failed: {}", e))?;
+    let (c2, _) = run_chunker(cfg, &d2, sched_of(d2.len(), 2)).map_err(|e| format!("chunker failed: {}", e))?;
     // boundaries in S coordinates (end positions of chunks)
     let ends = |c: &Vec<(u64, Vec<u8>)>, pl: usize| -> Vec<i64> { c.iter().map(|(o, d)| *o as i64 + d.len() as i64 - pl as i64).collect() };
     let e1 = ends(&c1, p1.len());
@@ -569,13 +572,17 @@ pub fn suite_resync(dir: &str, seed: u64, thorough: bool, st: &mut Stats) {
         // a few cases with a window wide enough for the 32-bit sums to wrap: the hash must still be a function of the
         // window alone, whatever was fed before
         let wide = i < nwide;
-        let cfg = if wide {
+        let long = i >= nwide && i < nwide + if thorough { 10 } else { 2 };
+        let cfg = if long {
+            Cfg { algo: *rng.pick(&['R', 'B']), bits: rng.range(9, 13) as u32, min: *rng.pick(&[0usize, 512, 4096]), max: 65536, win: *rng.pick(&[16usize, 64]) }
+        } else if wide {
             let win = *rng.pick(&[5600usize, 6000, 8192]);
             Cfg { algo: *rng.pick(&['R', 'R', 'B']), bits: rng.range(3, 11) as u32, min: *rng.pick(&[0usize, win / 2, win]), max: win + rng.range(0, 6000) as usize, win }
         } else { gen_cfg(&mut rng, true) };
-        let (mut s, kind) = { let l = if wide { rng.range(15_000, 40_000) } else { rng.range(1, 1200) } as usize; gen_data(&mut rng, l) };
+        let (mut s, kind) = { let l = if long { rng.range(1_100_000, 1_900_000) } else if wide { rng.range(15_000, 40_000) } else { rng.range(1, 1200) } as usize; if long { ((0..l).map(|_| rng.next() as u8).collect(), "random") } else { gen_data(&mut rng, l) } };
         if wide { for b in s.iter_mut() { if rng.chance(3, 4) { *b |= 0xe0; } } }
         let mut mk_prefix = |rng: &mut Rng| -> Vec<u8> {
+            if long { let l = rng.range(0, 300_000) as usize; return (0..l).map(|_| rng.next() as u8).collect(); }
             if wide { let l = rng.range(0, 12_000) as usize; let mut v = gen_data(rng, l).0; if rng.chance(1, 2) { for b in v.iter_mut() { *b |= 0xf0; } } return v; }
             match rng.below(6) {
                 0 => vec![],
@@ -605,6 +612,7 @@ pub fn suite_resync(dir: &str, seed: u64, thorough: bool, st: &mut Stats) {
             Err(what) => st.violation("C10", &what, &format!("resync {} {} {} {}", cfg.line(), hex(&p1), hex(&p2), hex(&s))),
         }
         st.sample(format!("resync {} p1={} p2={} |S|={}", cfg.line(), p1.len(), p2.len(), s.len()));
+        if long { continue; }
         for p in [&p1, &p2] {
             let d = [p.as_slice(), s.as_slice()].concat();
             if let Ok((ch, _)) = run_chunker(&cfg, &d, vec![]) {
